@@ -33,6 +33,8 @@ def checkLine (line : String) : String × String × Verdict :=
         | "div" => checkDiv op args r
         | "udiv" => checkUDiv op args r
         | "ord" => checkOrd op args r
+        | "gcd" => checkGcd op args r
+        | "ugcd" => checkUGcd op args r
         | "refs" => checkRefs args r
         | _ => Verdict.skip s!"unknown family {fam}"
       (idx, fam, v)
